@@ -622,7 +622,7 @@ def mon_inbound(tr):
                 hs_need = max(0, 4 - (n if n is not None else 4))
                 take = min(hs_need, len(prebytes))
                 hs_need -= take
-                inbuf, prebytes = prebytes[take:], b""
+                inbuf, prebytes = (rep[4:] if rep is not None and rep != b"block" else b"") + prebytes[take:], b""     # (what comes in one segment with the CONNACK)
                 live, fedq, pending = True, [], []
                 fr, rest, bad = mq.frames(inbuf)
                 inbuf = b"" if bad else rest
